@@ -558,6 +558,15 @@ func (a *asm) stmt(level int, inLoop bool) {
 			unhex("fe"),                             // invalid
 			unhex("32ff"),                           // selfdestruct to origin in the initcode
 		}
+		if extended {
+			// creations that are refused AFTER the init code has returned: code over the size limit, code
+			// whose deposit cannot be paid - what the init code returned is not the creator's return data
+			inits = append(inits,
+				unhex("6160016000f3"), // returns 24577 bytes: one more than the limit
+				unhex("6160006000f3"), // returns exactly 24576 bytes: allowed, if the deposit can be paid
+				unhex("6110006000f3"), // returns 4096 bytes
+			)
+		}
 		in := inits[R.Intn(len(inits))]
 		word := make([]byte, 32)
 		copy(word, in)
@@ -578,6 +587,10 @@ func (a *asm) stmt(level int, inLoop bool) {
 			a.pushInt(0)
 			a.op(CREATE2)
 			a.depth -= 3
+		}
+		if extended && R.Chance(60) { // what does the creator see as return data now?
+			a.op(RETURNDATASIZE)
+			a.depth++
 		}
 	case c < 91 && !inLoop: // skip a few statements
 		a.ensure(1)
